@@ -1,5 +1,4 @@
 import KG.Base.Json
-import KG.Driver.C01
 import KG.Driver.C04
 import KG.Spec.Gateway
 /-! Driver entry point `C04.gateway` — the composed model of the data plane (`KG.Model.Gateway`) threaded over a whole
@@ -28,8 +27,17 @@ def decodeSchema (j : Json) : Except String Model.LocalLimiter.Schema := do
     | none => pure none
   pure { name := ← J.getHex j "name", strategy := [], exempt := ← J.getBool j "exempt", mi := mi, tb := tb, gmi := none, gtb := none }
 
+/-- a dispatch rule (same wire form as `harness/matchgen.RuleJSON`) -/
+def decodeRule (j : Json) : Except String Model.Match.Rule := do
+  let sas ← (← J.getArr j "serviceAccounts").toList.mapM fun sa => do
+    pure ({ ns := ← J.getHex sa "ns", name := ← J.getHex sa "name" } : Model.Match.SA)
+  pure { verbs := ← J.getHexList j "verbs", apiGroups := ← J.getHexList j "apiGroups",
+         resources := ← J.getHexList j "resources", resourceNames := ← J.getHexList j "resourceNames",
+         users := ← J.getHexList j "users", serviceAccounts := sas,
+         userGroups := ← J.getHexList j "userGroups", nonResourceURLs := ← J.getHexList j "nonResourceURLs" }
+
 def decodePolicy (j : Json) : Except String Model.Match.PolicyCfg := do
-  let rules ← (← J.getArr j "rules").toList.mapM KG.Driver.C01.decodeRule
+  let rules ← (← J.getArr j "rules").toList.mapM decodeRule
   pure { rules := rules, flowControlSchemaName := ← J.getHex j "fc", upstreamSubset := ← J.getHexList j "subset",
          logMode := ← J.getHex j "logMode" }
 
